@@ -484,7 +484,7 @@ func (e *Exec) convert(v Value, from, to types.Type) Value {
 			if c, ok := x.ConstU(); ok {
 				return strConst(string(rune(c)))
 			}
-			if e.feasible(smt.Not(small)) {
+			if e.feasibleStrict(smt.Not(small)) {
 				e.unsupported("string(rune) with non-ASCII value")
 			}
 			return &Str{B: []*smt.Term{smt.Extract(x, 7, 0)}}
@@ -953,7 +953,7 @@ func (e *Exec) next(fr *Frame, x *ssa.Next) Value {
 		}
 		b := it.S.B[it.Pos]
 		if smt.UMax(b) >= 0x80 {
-			if e.feasible(smt.BvCmp(smt.OBvUle, smt.BVC(8, 0x80), b)) {
+			if e.feasibleStrict(smt.BvCmp(smt.OBvUle, smt.BVC(8, 0x80), b)) {
 				e.unsupported("range over string with non-ASCII byte")
 			}
 		}
